@@ -1,5 +1,6 @@
 import Mdns.Model.Encode
-import Mdns.Spec.RefParse
+import Mdns.Lemmas.RefParse
+import Mdns.Spec.Expect
 /-
   Helper lemmas for C02 (encoder).
 -/
@@ -958,5 +959,966 @@ theorem toPackets_ok (o : OutMsg) (ps : List Packet) (h : toPackets o = .ok ps) 
           · rw [g2, a4]; simpa using a5
           · rw [g3, b4]; simpa using b5
           · rw [g4]; simpa using g5
+
+/-! ### towards the round trip -/
+
+theorem lor_pointer (off : Nat) (h : off < 16384) : off ||| POINTER_MASK = off + 49152 := by
+  have := Nat.shiftLeft_add_eq_or_of_lt (i := 14) (b := off) (by simpa using h) 3
+  simp only [POINTER_MASK]
+  rw [Nat.or_comm]
+  have e : (3 <<< 14 : Nat) = 49152 := by decide
+  rw [e] at this
+  omega
+
+theorem keyOf_parse (ls : List BList) (h : ∀ l ∈ ls, l ≠ []) : parseEscaped (keyOf ls) = ls := by
+  induction ls with
+  | nil => simp [keyOf, parseEscaped, parseEscapedGo]
+  | cons l rest ih =>
+    cases rest with
+    | nil =>
+      simp only [keyOf]
+      have := parseEscapedGo_escape l [] []
+      simp only [List.append_nil, List.nil_append] at this
+      unfold parseEscaped
+      rw [this]
+      simp [parseEscapedGo, h l List.mem_cons_self]
+    | cons l2 rest =>
+      simp only [keyOf]
+      unfold parseEscaped
+      rw [List.append_assoc, parseEscapedGo_escape, List.nil_append, List.singleton_append,
+        parseEscapedGo_dot _ _ (h l List.mem_cons_self)]
+      congr 1
+      exact ih (fun x hx => h x (List.mem_cons_of_mem _ hx))
+
+theorem keyOf_inj (a b : List BList) (ha : ∀ l ∈ a, l ≠ []) (hb : ∀ l ∈ b, l ≠ []) (h : keyOf a = keyOf b) : a = b := by
+  rw [← keyOf_parse a ha, ← keyOf_parse b hb, h]
+
+theorem lookup_mem (k : BList) (ns : Names) (v : Nat) (h : lookup k ns = some v) : (k, v) ∈ ns := by
+  induction ns with
+  | nil => simp [lookup] at h
+  | cons e rest ih =>
+    obtain ⟨k', v'⟩ := e
+    simp only [lookup] at h
+    split at h
+    · rename_i hk; simp only [Option.some.injEq] at h; subst h; subst hk; exact List.mem_cons_self
+    · exact List.mem_cons_of_mem _ (ih h)
+
+/-- an entry `(key, off)` of the compression table is sound with respect to the bytes `D`:
+    the offset can be expressed as a pointer, the key is the key of a non-empty sequence
+    of non-empty labels, and the reference reader reads exactly that sequence at `off`
+    (within `B` steps) -/
+def EntryOK (B : Nat) (D : Data) (e : BList × Nat) : Prop :=
+  e.2 < D.size ∧ e.2 < 16384 ∧ ∃ ls, ls ≠ [] ∧ (∀ l ∈ ls, l ≠ []) ∧ e.1 = keyOf ls ∧
+    ∃ f en, f ≤ B ∧ Ref.readNameFuel D f e.2 = some (ls, en)
+
+/-- the invariant of the compression table -/
+def NamesOK (D : Data) (ns : Names) : Prop := ∀ e ∈ ns, EntryOK D.size D e
+
+theorem EntryOK_append (B B' : Nat) (D x : Data) (e : BList × Nat) (h : EntryOK B D e) (hB : B ≤ B') :
+    EntryOK B' (D ++ x) e := by
+  obtain ⟨h1, h2, ls, h3, h4, h5, f, en, h6, h7⟩ := h
+  exact ⟨by simp; omega, h2, ls, h3, h4, h5, f, en, by omega,
+    Ref.readNameFuel_mono D x f f _ _ h7 (Nat.le_refl _)⟩
+
+theorem NamesOK_append (D x : Data) (ns : Names) (h : NamesOK D ns) : NamesOK (D ++ x) ns :=
+  fun e he => EntryOK_append _ _ D x e (h e he) (by simp)
+
+/-- octets of a label sequence on the wire without compression -/
+def wlen (ls : List BList) : Nat := (ls.map fun l => l.length + 1).sum + 1
+
+theorem getElem?_at_size (D : Data) (b : UInt8) (t : BList) : (D ++ (b :: t).toArray)[D.size]? = some b := by
+  simp
+
+theorem getElem?_at_size1 (D : Data) (a b : UInt8) (t : BList) :
+    (D ++ (a :: b :: t).toArray)[D.size + 1]? = some b := by
+  simp
+
+theorem drop_size_succ (D : Data) (c : UInt8) (x : BList) :
+    List.drop (D.size + 1) (D.toList ++ c :: x) = x := by
+  have : D.size + 1 = (D.toList ++ [c]).length := by simp
+  rw [show D.toList ++ c :: x = (D.toList ++ [c]) ++ x by simp, this, List.drop_left]
+
+theorem bytesAt_at_size1 (D : Data) (c : UInt8) (l t : BList) :
+    Ref.bytesAt (D ++ (c :: (l ++ t)).toArray) (D.size + 1) l.length = some l := by
+  rw [Ref.bytesAt_eq_some]
+  refine ⟨by simp; omega, ?_⟩
+  simp only [Array.toList_append]
+  rw [drop_size_succ]
+  simp
+
+theorem wlen_cons (l : BList) (rest : List BList) : wlen (l :: rest) = l.length + 1 + wlen rest := by
+  simp [wlen]; omega
+
+theorem wlen_pos (ls : List BList) : 1 ≤ wlen ls := by simp [wlen]
+
+theorem writeLabels_spec (ls : List BList) : ∀ (p p' : OutPacket) (pending old : Names),
+    writeLabels p ls = .ok p' →
+    (∀ l ∈ ls, l ≠ []) →
+    p.names = pending ++ old →
+    (∀ e ∈ pending, ∃ ls', e.1 = keyOf ls' ∧ (∀ l ∈ ls', l ≠ []) ∧ ls.length < ls'.length) →
+    p.data.size + wlen ls ≤ 16384 →
+    ∃ (bs : BList) (new : Names),
+      p'.data = p.data ++ bs.toArray ∧ p'.finished = p.finished ∧ p'.names = new ++ pending ++ old ∧
+      1 ≤ bs.length ∧ bs.length ≤ wlen ls ∧
+      (∀ e ∈ new, p.data.size ≤ e.2 ∧ e.2 < p.data.size + bs.length) ∧
+      ∀ (D : Data) (B : Nat), D.size = p.data.size → (∀ e ∈ old, EntryOK B D e) →
+        (∃ f, f ≤ bs.length + B ∧
+          Ref.readNameFuel (D ++ bs.toArray) f D.size = some (ls, D.size + bs.length)) ∧
+        (∀ e ∈ new, ∃ ls', ls' ≠ [] ∧ (∀ l ∈ ls', l ≠ []) ∧ e.1 = keyOf ls' ∧
+            ∃ f en, f ≤ bs.length + B ∧ Ref.readNameFuel (D ++ bs.toArray) f e.2 = some (ls', en)) := by
+  induction ls with
+  | nil =>
+    intro p p' pending old h _ hn _ _
+    simp only [writeLabels, Res.ok.injEq] at h
+    subst h
+    refine ⟨[0], [], ?_, by simp, by simp [hn], by simp, by simp [wlen], by simp, ?_⟩
+    · simp
+    · intro D B hD _
+      refine ⟨⟨1, by simp, ?_⟩, by simp⟩
+      simp [Ref.readNameFuel]
+  | cons l rest ih =>
+    intro p p' pending old h hne hn hp hsz
+    have hl : l ≠ [] := hne l List.mem_cons_self
+    have hrest : ∀ x ∈ rest, x ≠ [] := fun x hx => hne x (List.mem_cons_of_mem _ hx)
+    simp only [writeLabels] at h
+    split at h
+    · -- compression hit
+      rename_i off hlk
+      simp only [Res.ok.injEq] at h
+      subst h
+      have hmem := lookup_mem _ _ _ hlk
+      rw [hn, List.mem_append] at hmem
+      have hold : (keyOf (l :: rest), off) ∈ old := by
+        rcases hmem with hm | hm
+        · obtain ⟨ls', h1, h2, h3⟩ := hp _ hm
+          have := keyOf_inj _ _ hne h2 h1
+          rw [← this] at h3
+          exact absurd h3 (Nat.lt_irrefl _)
+        · exact hm
+      refine ⟨be16 (off ||| POINTER_MASK), [], by simp, by simp, by simp [hn], by simp, ?_, by simp, ?_⟩
+      · rw [wlen_cons]; have := wlen_pos rest; simp; omega
+      · intro D B hD hold'
+        refine ⟨?_, by simp⟩
+        obtain ⟨h1, h2, ls', h3, h4, h5, f, en, h6, h7⟩ := hold' _ hold
+        simp only at h1 h2 h5 h7
+        have hls : ls' = l :: rest := (keyOf_inj _ _ hne h4 h5).symm
+        subst hls
+        rw [lor_pointer off h2]
+        refine ⟨f + 1, by simp; omega, ?_⟩
+        simp only [Ref.readNameFuel, be16]
+        rw [getElem?_at_size, getElem?_at_size1]
+        have t1 : (UInt8.ofNat ((off + 49152) / 256)).toNat = 192 + off / 256 := by
+          simp [UInt8.toNat_ofNat'] <;> omega
+        have t2 : (UInt8.ofNat (off + 49152)).toNat = off % 256 := by
+          simp [UInt8.toNat_ofNat'] <;> omega
+        have t0 : UInt8.ofNat ((off + 49152) / 256) ≠ 0 := by
+          intro hc
+          have := congrArg UInt8.toNat hc
+          rw [t1] at this
+          simp at this
+        simp only [t0, if_false, t1, t2]
+        have e1 : ¬ (192 + off / 256 < 64) := by omega
+        have e2 : 192 + off / 256 ≥ 192 := by omega
+        have e3 : (192 + off / 256 - 192) * 256 + off % 256 = off := by omega
+        simp only [e1, e2, e3, if_true, if_false]
+        have e4 : off < D.size := h1
+        simp only [e4, if_true]
+        rw [Ref.readNameFuel_mono D _ f f off _ h7 (Nat.le_refl _)]
+        simp
+    · -- no hit: the label is written and the suffix is remembered
+      rename_i hlk
+      split at h
+      · rename_i p1 hu
+        obtain ⟨u1, u2, u3, u4⟩ := writeUtf8_ok _ _ _ hu
+        simp only [] at u1 u2 u3
+        have hmod : p.data.size % 65536 = p.data.size := by
+          apply Nat.mod_eq_of_lt
+          have := wlen_pos (l :: rest)
+          omega
+        rw [hmod, hn] at u2
+        have hsz1 : p1.data.size + wlen rest ≤ 16384 := by
+          rw [u1]; rw [wlen_cons] at hsz; simp; omega
+        obtain ⟨bs', new', i1, i2, i3, i4, i5, i6, i7⟩ := ih p1 p' ((keyOf (l :: rest), p.data.size) :: pending) old h hrest
+          (by rw [u2]; simp)
+          (by
+            intro e he
+            simp only [List.mem_cons] at he
+            rcases he with rfl | he
+            · exact ⟨l :: rest, rfl, hne, by simp⟩
+            · obtain ⟨ls', a1, a2, a3⟩ := hp e he
+              exact ⟨ls', a1, a2, by simp at a3; omega⟩)
+          hsz1
+        have hdata : p'.data = p.data ++ (UInt8.ofNat l.length :: (l ++ bs')).toArray := by
+          rw [i1, u1]
+          apply Array.toList_inj.mp
+          simp
+        have hc : (UInt8.ofNat l.length).toNat = l.length := by
+          simp [UInt8.toNat_ofNat'] <;> omega
+        refine ⟨UInt8.ofNat l.length :: (l ++ bs'), new' ++ [(keyOf (l :: rest), p.data.size)],
+          hdata, by rw [i2, u3], by rw [i3]; simp, by simp, ?_, ?_, ?_⟩
+        · rw [wlen_cons]; simp; omega
+        · intro e he
+          simp only [List.mem_append, List.mem_singleton] at he
+          rcases he with he | rfl
+          · have := i6 e he
+            rw [u1] at this
+            simp at this ⊢
+            omega
+          · simp
+        · intro D B hD hold
+          have hD1 : (D ++ (UInt8.ofNat l.length :: l).toArray).size = p1.data.size := by
+            rw [u1]; simp; omega
+          have hold1 : ∀ e ∈ old, EntryOK B (D ++ (UInt8.ofNat l.length :: l).toArray) e :=
+            fun e he => EntryOK_append B B D _ e (hold e he) (Nat.le_refl _)
+          obtain ⟨⟨f', j1, j2⟩, j3⟩ := i7 _ B hD1 hold1
+          have hcat : D ++ (UInt8.ofNat l.length :: l).toArray ++ bs'.toArray =
+              D ++ (UInt8.ofNat l.length :: (l ++ bs')).toArray := by
+            apply Array.toList_inj.mp
+            simp
+          rw [hcat] at j2
+          have hread : Ref.readNameFuel (D ++ (UInt8.ofNat l.length :: (l ++ bs')).toArray) (f' + 1) D.size =
+              some (l :: rest, D.size + (UInt8.ofNat l.length :: (l ++ bs')).length) := by
+            simp only [Ref.readNameFuel]
+            rw [getElem?_at_size]
+            have t0 : UInt8.ofNat l.length ≠ 0 := by
+              intro hc0
+              have := congrArg UInt8.toNat hc0
+              rw [hc] at this
+              simp at this
+              exact hl this
+            simp only [t0, if_false, hc, u4, if_true]
+            rw [bytesAt_at_size1]
+            have : D.size + 1 + l.length = (D ++ (UInt8.ofNat l.length :: l).toArray).size := by
+              simp; omega
+            rw [this, j2]
+            simp
+            omega
+          refine ⟨⟨f' + 1, by simp; omega, hread⟩, ?_⟩
+          intro e he
+          simp only [List.mem_append, List.mem_singleton] at he
+          rcases he with he | rfl
+          · obtain ⟨ls', k1, k2, k3, f, en, k4, k5⟩ := j3 e he
+            rw [hcat] at k5
+            exact ⟨ls', k1, k2, k3, f, en, by simp; omega, k5⟩
+          · refine ⟨l :: rest, by simp, hne, rfl, f' + 1,
+              D.size + (UInt8.ofNat l.length :: (l ++ bs')).length, by simp; omega, ?_⟩
+            simp only []
+            rw [← hD]
+            exact hread
+      · simp at h
+      · simp at h
+
+theorem getElem?_of_toList (d : Data) (pre : BList) (b : UInt8) (post : BList)
+    (h : d.toList = pre ++ b :: post) : d[pre.length]? = some b := by
+  rw [← Array.getElem?_toList, h]
+  simp
+
+theorem u16_of_toList (d : Data) (pre post : BList) (v : Nat) (h : d.toList = pre ++ (be16 v ++ post)) :
+    Ref.u16 d pre.length = some (v % 65536) := by
+  have h0 : d[pre.length]? = some (UInt8.ofNat (v / 256)) := getElem?_of_toList d pre _ _ (by simpa [be16] using h)
+  have h1 : d[pre.length + 1]? = some (UInt8.ofNat v) := by
+    have := getElem?_of_toList d (pre ++ [UInt8.ofNat (v / 256)]) (UInt8.ofNat v) post (by simpa [be16] using h)
+    simpa using this
+  simp [Ref.u16, h0, h1, UInt8.toNat_ofNat']
+  omega
+
+theorem u32_of_toList (d : Data) (pre post : BList) (v : Nat) (h : d.toList = pre ++ (be32 v ++ post)) :
+    Ref.u32 d pre.length = some (v % 4294967296) := by
+  have a := u16_of_toList d pre (be16 v ++ post) (v / 65536) (by
+    rw [h]; simp [be32, be16, Nat.div_div_eq_div_mul])
+  have b := u16_of_toList d (pre ++ be16 (v / 65536)) post v (by
+    rw [h]; simp [be32, be16, Nat.div_div_eq_div_mul])
+  simp only [List.length_append, be16_length] at b
+  simp [Ref.u32, a, b]
+  omega
+
+theorem bytesAt_of_toList (d : Data) (pre l post : BList) (h : d.toList = pre ++ (l ++ post)) :
+    Ref.bytesAt d pre.length l.length = some l := by
+  rw [Ref.bytesAt_eq_some]
+  have hs : d.size = pre.length + (l.length + post.length) := by
+    rw [← Array.length_toList, h]; simp
+  refine ⟨by omega, ?_⟩
+  rw [h, List.drop_left]
+  simp
+
+theorem wireLen_eq (ls : List BList) : Ref.wireLen ls = wlen ls := rfl
+
+theorem labelsOf_ne (name : BList) : ∀ l ∈ labelsOf name, l ≠ [] := parseEscapedGo_no_empty _ _
+
+theorem writeName_spec (p p' : OutPacket) (name : BList) (h : p.writeName name = .ok p')
+    (hsz : p.data.size + wlen (labelsOf name) ≤ 16384) :
+    ∃ (bs : BList) (new : Names),
+      p'.data = p.data ++ bs.toArray ∧ p'.finished = p.finished ∧ p'.names = new ++ p.names ∧
+      1 ≤ bs.length ∧ bs.length ≤ wlen (labelsOf name) ∧
+      (∀ e ∈ new, p.data.size ≤ e.2 ∧ e.2 < p.data.size + bs.length) ∧
+      ∀ D : Data, D.size = p.data.size → NamesOK D p.names →
+        NamesOK (D ++ bs.toArray) p'.names ∧
+        (wlen (labelsOf name) ≤ 255 → ∀ x : Data,
+          Ref.readName (D ++ bs.toArray ++ x) D.size = some (labelsOf name, D.size + bs.length)) := by
+  obtain ⟨bs, new, h1, h2, h3, h4, h5, h6, h7⟩ :=
+    writeLabels_spec (labelsOf name) p p' [] p.names h (labelsOf_ne name) (by simp) (by simp) hsz
+  refine ⟨bs, new, h1, h2, by simpa using h3, h4, h5, h6, ?_⟩
+  intro D hD hN
+  obtain ⟨⟨f, g1, g2⟩, g3⟩ := h7 D D.size hD hN
+  constructor
+  · intro e he
+    rw [h3] at he
+    simp only [List.append_nil, List.mem_append] at he
+    rcases he with he | he
+    · obtain ⟨ls', k1, k2, k3, f', en, k4, k5⟩ := g3 e he
+      have := h6 e he
+      refine ⟨by simp; omega, by omega, ls', k1, k2, k3, f', en, by simp; omega, k5⟩
+    · exact EntryOK_append _ _ D _ e (hN e he) (by simp)
+  · intro hw x
+    unfold Ref.readName
+    rw [Ref.readNameFuel_mono (D ++ bs.toArray) x f _ D.size _ g2 (by simp; omega)]
+    simp only [wireLen_eq, hw, if_true]
+
+/-- a question inside the domain of the round-trip theorem -/
+def QWF (q : QIn) : Prop := wlen (labelsOf q.name) ≤ 255 ∧ q.ty < 65536
+
+theorem toList_app3 (D : Data) (a b : BList) (x : Data) :
+    (D ++ (a ++ b).toArray ++ x).toList = (D.toList ++ a) ++ (b ++ x.toList) := by simp
+
+theorem writeQuestion_spec (p p' : OutPacket) (q : QIn) (h : p.writeQuestion q = .ok p')
+    (hsz : p.data.size + wlen (labelsOf q.name) ≤ 16384) :
+    ∃ (bs : BList) (new : Names),
+      p'.data = p.data ++ bs.toArray ∧ p'.finished = p.finished ∧ p'.names = new ++ p.names ∧
+      (∀ e ∈ new, p.data.size ≤ e.2 ∧ e.2 < p.data.size + bs.length) ∧
+      ∀ D : Data, D.size = p.data.size → NamesOK D p.names →
+        NamesOK (D ++ bs.toArray) p'.names ∧
+        (QWF q → ∀ x : Data,
+          Ref.readQuestion (D ++ bs.toArray ++ x) D.size = some (expQ q, D.size + bs.length)) := by
+  simp only [OutPacket.writeQuestion] at h
+  split at h
+  · rename_i p1 h1
+    simp only [Res.ok.injEq] at h
+    subst h
+    obtain ⟨nb, new, a1, a2, a3, a4, a5, a6, a7⟩ := writeName_spec p p1 q.name h1 hsz
+    refine ⟨nb ++ (be16 q.ty ++ be16 CLASS_IN), new, ?_, by simp [a2], by simp [a3], ?_, ?_⟩
+    · simp only [writeShort_data, a1]
+      apply Array.toList_inj.mp; simp
+    · intro e he; have := a6 e he; simp; omega
+    · intro D hD hN
+      obtain ⟨b1, b2⟩ := a7 D hD hN
+      constructor
+      · have := NamesOK_append _ (be16 q.ty ++ be16 CLASS_IN).toArray _ b1
+        simp only [writeShort_names]
+        have e : D ++ (nb ++ (be16 q.ty ++ be16 CLASS_IN)).toArray =
+            D ++ nb.toArray ++ (be16 q.ty ++ be16 CLASS_IN).toArray := by
+          apply Array.toList_inj.mp; simp
+        rw [e]; exact this
+      · intro hq x
+        have e : D ++ (nb ++ (be16 q.ty ++ be16 CLASS_IN)).toArray ++ x =
+            D ++ nb.toArray ++ ((be16 q.ty ++ be16 CLASS_IN).toArray ++ x) := by
+          apply Array.toList_inj.mp; simp
+        unfold Ref.readQuestion
+        rw [e, b2 hq.1]
+        simp only []
+        have hl : D.size + nb.length = (D.toList ++ nb).length := by simp
+        have u1 := u16_of_toList (D ++ nb.toArray ++ ((be16 q.ty ++ be16 CLASS_IN).toArray ++ x))
+          (D.toList ++ nb) (be16 CLASS_IN ++ x.toList) q.ty (by simp)
+        have u2 := u16_of_toList (D ++ nb.toArray ++ ((be16 q.ty ++ be16 CLASS_IN).toArray ++ x))
+          (D.toList ++ nb ++ be16 q.ty) x.toList CLASS_IN (by simp)
+        rw [← hl] at u1
+        have hl2 : (D.toList ++ nb ++ be16 q.ty).length = D.size + nb.length + 2 := by simp; omega
+        rw [hl2] at u2
+        rw [u1, u2]
+        simp [expQ, Nat.mod_eq_of_lt hq.2, CLASS_IN]
+        omega
+  · simp at h
+  · simp at h
+
+/-- RDATA inside the domain of the round-trip theorem: the record type matches the kind
+    of data (as the crate's constructors are used), fixed sizes for addresses, 16-bit SRV
+    fields, names of at most 255 octets -/
+def RDataWF (ty : Nat) : Wire.RData → Prop
+  | .a ip => ty = 1 ∧ ip.length = 4
+  | .aaaa ip => ty = 28 ∧ ip.length = 16
+  | .ptr n => (ty = 12 ∨ ty = 5) ∧ wlen (labelsOf n) ≤ 255
+  | .srv p w port h => ty = 33 ∧ p < 65536 ∧ w < 65536 ∧ port < 65536 ∧ wlen (labelsOf h) ≤ 255
+  | .txt _ => ty = 16
+  | .hinfo .. => False
+  | .nsec .. => False
+
+/-- room needed so that the name inside RDATA gets offsets below 16384 -/
+def rdNameLen : Wire.RData → Nat
+  | .ptr n => wlen (labelsOf n)
+  | .srv _ _ _ h => 6 + wlen (labelsOf h)
+  | _ => 0
+
+theorem writeRData_spec (p p' : OutPacket) (rd : Wire.RData) (h : p.writeRData rd = .ok p')
+    (hsz : p.data.size + rdNameLen rd ≤ 16384) :
+    ∃ (bs : BList) (new : Names),
+      p'.data = p.data ++ bs.toArray ∧ p'.finished = p.finished ∧ p'.names = new ++ p.names ∧
+      (∀ e ∈ new, p.data.size ≤ e.2 ∧ e.2 < p.data.size + bs.length) ∧
+      ∀ D : Data, D.size = p.data.size → NamesOK D p.names →
+        NamesOK (D ++ bs.toArray) p'.names ∧
+        ∀ ty, RDataWF ty rd → ∀ x : Data,
+          Ref.readRData (D ++ bs.toArray ++ x) ty D.size bs.length = some (expRData rd) := by
+  cases rd with
+  | a ip =>
+    simp only [OutPacket.writeRData, Res.ok.injEq] at h; subst h
+    refine ⟨ip, [], by simp, by simp, by simp, by simp, ?_⟩
+    intro D hD hN
+    refine ⟨by simpa using NamesOK_append D ip.toArray _ hN, ?_⟩
+    intro ty hw x
+    obtain ⟨rfl, h4⟩ := hw
+    have := bytesAt_of_toList (D ++ ip.toArray ++ x) D.toList ip x.toList (by simp)
+    simp only [Array.length_toList] at this
+    rw [Array.append_assoc] at this
+    simp [Ref.readRData, h4, expRData]
+    rw [← h4, this]
+  | aaaa ip =>
+    simp only [OutPacket.writeRData, Res.ok.injEq] at h; subst h
+    refine ⟨ip, [], by simp, by simp, by simp, by simp, ?_⟩
+    intro D hD hN
+    refine ⟨by simpa using NamesOK_append D ip.toArray _ hN, ?_⟩
+    intro ty hw x
+    obtain ⟨rfl, h4⟩ := hw
+    have := bytesAt_of_toList (D ++ ip.toArray ++ x) D.toList ip x.toList (by simp)
+    simp only [Array.length_toList] at this
+    rw [Array.append_assoc] at this
+    simp [Ref.readRData, h4, expRData]
+    rw [← h4, this]
+  | txt b =>
+    simp only [OutPacket.writeRData, Res.ok.injEq] at h; subst h
+    refine ⟨b, [], by simp, by simp, by simp, by simp, ?_⟩
+    intro D hD hN
+    refine ⟨by simpa using NamesOK_append D b.toArray _ hN, ?_⟩
+    intro ty hw x
+    have hw' : ty = 16 := hw
+    subst hw'
+    have := bytesAt_of_toList (D ++ b.toArray ++ x) D.toList b x.toList (by simp)
+    simp only [Array.length_toList] at this
+    rw [Array.append_assoc] at this
+    simp [Ref.readRData, expRData, this]
+  | hinfo c o =>
+    simp only [OutPacket.writeRData, Res.ok.injEq] at h; subst h
+    refine ⟨c ++ o, [], by simp, by simp, by simp, by simp, ?_⟩
+    intro D hD hN
+    refine ⟨by simpa using NamesOK_append D (c ++ o).toArray _ hN, ?_⟩
+    intro ty hw; exact absurd hw (by simp [RDataWF])
+  | nsec n b =>
+    simp only [OutPacket.writeRData, Res.ok.injEq] at h; subst h
+    refine ⟨n ++ b, [], by simp, by simp, by simp, by simp, ?_⟩
+    intro D hD hN
+    refine ⟨by simpa using NamesOK_append D (n ++ b).toArray _ hN, ?_⟩
+    intro ty hw; exact absurd hw (by simp [RDataWF])
+  | ptr n =>
+    simp only [OutPacket.writeRData] at h
+    obtain ⟨nb, new, a1, a2, a3, a4, a5, a6, a7⟩ := writeName_spec p p' n h (by simpa [rdNameLen] using hsz)
+    refine ⟨nb, new, a1, a2, a3, a6, ?_⟩
+    intro D hD hN
+    obtain ⟨b1, b2⟩ := a7 D hD hN
+    refine ⟨b1, ?_⟩
+    intro ty hw x
+    obtain ⟨ht, hl⟩ := hw
+    have t1 : ty ≠ 1 := by omega
+    have t2 : ty ≠ 28 := by omega
+    have rn := b2 hl x
+    rw [Array.append_assoc] at rn
+    simp [Ref.readRData, t1, t2, ht, rn, expRData]
+  | srv pr w port host =>
+    simp only [OutPacket.writeRData] at h
+    obtain ⟨nb, new, a1, a2, a3, a4, a5, a6, a7⟩ := writeName_spec _ p' host h (by
+      simp only [rdNameLen] at hsz; simp; omega)
+    refine ⟨be16 pr ++ be16 w ++ be16 port ++ nb, new, ?_, by simpa using a2, by simpa using a3, ?_, ?_⟩
+    · rw [a1]; apply Array.toList_inj.mp; simp
+    · intro e he; have := a6 e he; simp at this ⊢; omega
+    · intro D hD hN
+      have hD' : (D ++ (be16 pr ++ be16 w ++ be16 port).toArray).size =
+          (((p.writeShort pr).writeShort w).writeShort port).data.size := by simp; omega
+      have hN' : NamesOK (D ++ (be16 pr ++ be16 w ++ be16 port).toArray)
+          (((p.writeShort pr).writeShort w).writeShort port).names := by
+        simpa using NamesOK_append D (be16 pr ++ be16 w ++ be16 port).toArray _ hN
+      obtain ⟨b1, b2⟩ := a7 _ hD' hN'
+      have e0 : D ++ (be16 pr ++ be16 w ++ be16 port ++ nb).toArray =
+          D ++ (be16 pr ++ be16 w ++ be16 port).toArray ++ nb.toArray := by
+        apply Array.toList_inj.mp; simp
+      refine ⟨by rw [e0]; exact b1, ?_⟩
+      intro ty hw x
+      obtain ⟨rfl, h1, h2, h3, hl⟩ := hw
+      have rn := b2 hl x
+      rw [← e0] at rn
+      have s6 : (D ++ (be16 pr ++ be16 w ++ be16 port).toArray).size = D.size + 6 := by simp
+      rw [s6] at rn
+      have u1 := u16_of_toList (D ++ (be16 pr ++ be16 w ++ be16 port ++ nb).toArray ++ x) D.toList
+        (be16 w ++ be16 port ++ nb ++ x.toList) pr (by simp)
+      have u2 := u16_of_toList (D ++ (be16 pr ++ be16 w ++ be16 port ++ nb).toArray ++ x) (D.toList ++ be16 pr)
+        (be16 port ++ nb ++ x.toList) w (by simp)
+      have u3 := u16_of_toList (D ++ (be16 pr ++ be16 w ++ be16 port ++ nb).toArray ++ x)
+        (D.toList ++ be16 pr ++ be16 w) (nb ++ x.toList) port (by simp)
+      simp only [Array.length_toList, List.length_append, be16_length] at u1 u2 u3
+      simp only [Ref.readRData]
+      rw [u1, u2, u3, rn]
+      simp [expRData, Nat.mod_eq_of_lt h1, Nat.mod_eq_of_lt h2, Nat.mod_eq_of_lt h3]
+      omega
+
+theorem insertShortData_patch (A : Data) (R : BList) (v : Nat) :
+    insertShortData (A ++ (be16 0 ++ R).toArray) A.size v = .ok (A ++ (be16 v ++ R).toArray) := by
+  unfold insertShortData
+  have hs : A.size + 2 ≤ (A ++ (be16 0 ++ R).toArray).size := by simp <;> omega
+  simp only [hs, if_true, Res.ok.injEq]
+  apply Array.toList_inj.mp
+  simp [be16]
+
+theorem extract_append_left (A : Data) (B : Data) : (A ++ B).extract 0 A.size = A := by
+  apply Array.toList_inj.mp
+  simp
+
+/-- the ten bytes between owner name and RDATA -/
+def fixed10 (ty cls ttl len : Nat) : BList := be16 ty ++ be16 cls ++ be32 ttl ++ be16 len
+
+@[simp] theorem fixed10_length (ty cls ttl len : Nat) : (fixed10 ty cls ttl len).length = 10 := rfl
+
+/-- CLASS field as written: class with the cache-flush bit -/
+def clsBits (r : RecIn) : Nat := if r.flush then r.cls + 32768 else r.cls
+
+theorem writeRecordBody_spec (p1 p7 : OutPacket) (r : RecIn) (ttl : Nat)
+    (h : p1.writeRecordBody r ttl = .ok p7) (hsz : p1.data.size + 10 + rdNameLen r.rdata ≤ 16384) :
+    ∃ (rd : BList) (new : Names),
+      p7.data = p1.data ++ (fixed10 r.ty (clsBits r) ttl (rd.length % 65536) ++ rd).toArray ∧
+      p7.finished = p1.finished ∧ p7.names = new ++ p1.names ∧
+      (∀ e ∈ new, p1.data.size ≤ e.2 ∧ e.2 < p1.data.size + 10 + rd.length) ∧
+      ∀ D : Data, D.size = p1.data.size → NamesOK D p1.names →
+        NamesOK (D ++ (fixed10 r.ty (clsBits r) ttl (rd.length % 65536) ++ rd).toArray) p7.names ∧
+        (RDataWF r.ty r.rdata → ∀ x : Data,
+          Ref.readRData (D ++ (fixed10 r.ty (clsBits r) ttl (rd.length % 65536) ++ rd).toArray ++ x)
+            r.ty (D.size + 10) rd.length = some (expRData r.rdata)) := by
+  simp only [OutPacket.writeRecordBody] at h
+  split at h
+  · simp at h
+  · simp at h
+  · rename_i p6 h6
+    obtain ⟨rd, new, a1, a2, a3, a4, a5⟩ := writeRData_spec _ p6 r.rdata h6 (by simp; omega)
+    have hi := insertShort_data _ _ _ _ h
+    obtain ⟨i1, i2, i3⟩ := insertShort_ok _ _ _ _ h
+    have hlen : p6.data.size - ((((p1.writeShort r.ty).writeShort
+        (if r.flush = true then r.cls + 32768 else r.cls)).writeU32 ttl).writeShort 0).data.size = rd.length := by
+      rw [a1]; simp; omega
+    rw [hlen] at hi
+    have hA : p6.data = (p1.data ++ (be16 r.ty ++ be16 (clsBits r) ++ be32 ttl).toArray) ++ (be16 0 ++ rd).toArray := by
+      rw [a1]; apply Array.toList_inj.mp; simp [clsBits]
+    have hidx : ((((p1.writeShort r.ty).writeShort
+        (if r.flush = true then r.cls + 32768 else r.cls)).writeU32 ttl).writeShort 0).data.size - 2 =
+        (p1.data ++ (be16 r.ty ++ be16 (clsBits r) ++ be32 ttl).toArray).size := by simp
+    rw [hidx, hA, insertShortData_patch] at hi
+    simp only [Res.ok.injEq] at hi
+    have hdata : p7.data = p1.data ++ (fixed10 r.ty (clsBits r) ttl (rd.length % 65536) ++ rd).toArray := by
+      rw [← hi]; apply Array.toList_inj.mp; simp [fixed10]
+    refine ⟨rd, new, hdata, by rw [i3, a2]; simp, by rw [i2, a3]; simp, ?_, ?_⟩
+    · intro e he; have := a4 e he; simp at this; omega
+    · intro D hD hN
+      have hD5 : (D ++ (fixed10 r.ty (clsBits r) ttl (rd.length % 65536)).toArray).size =
+          ((((p1.writeShort r.ty).writeShort
+            (if r.flush = true then r.cls + 32768 else r.cls)).writeU32 ttl).writeShort 0).data.size := by
+        simp; omega
+      have hN5 : NamesOK (D ++ (fixed10 r.ty (clsBits r) ttl (rd.length % 65536)).toArray)
+          ((((p1.writeShort r.ty).writeShort
+            (if r.flush = true then r.cls + 32768 else r.cls)).writeU32 ttl).writeShort 0).names := by
+        simpa using NamesOK_append D _ _ hN
+      obtain ⟨b1, b2⟩ := a5 _ hD5 hN5
+      have e0 : D ++ (fixed10 r.ty (clsBits r) ttl (rd.length % 65536) ++ rd).toArray =
+          D ++ (fixed10 r.ty (clsBits r) ttl (rd.length % 65536)).toArray ++ rd.toArray := by
+        apply Array.toList_inj.mp; simp
+      refine ⟨by rw [e0, i2]; exact b1, ?_⟩
+      intro hw x
+      have := b2 r.ty hw x
+      rw [← e0] at this
+      have s10 : (D ++ (fixed10 r.ty (clsBits r) ttl (rd.length % 65536)).toArray).size = D.size + 10 := by simp
+      rw [s10] at this
+      exact this
+
+/-- the TTL an RFC 1035 reader must find -/
+def ttlOf (r : RecIn) (now : Nat) : Nat := if now = 0 then r.ttl else (expires r - now) / 1000
+
+/-- a record inside the domain of the round-trip theorem -/
+def RecWF (r : RecIn) (now : Nat) : Prop :=
+  wlen (labelsOf r.name) ≤ 255 ∧ r.ty < 65536 ∧ r.cls < 32768 ∧ ttlOf r now < 4294967296 ∧
+  RDataWF r.ty r.rdata
+
+theorem rdNameLen_le (ty : Nat) (rd : Wire.RData) (h : RDataWF ty rd) : rdNameLen rd ≤ 261 := by
+  cases rd <;> simp only [RDataWF, rdNameLen] at * <;> omega
+
+theorem writeRecord_spec (p p' : OutPacket) (r : RecIn) (now : Nat) (b : Bool)
+    (h : p.writeRecord r now = .ok (p', b)) (hw : RecWF r now) (hs : p.data.size ≤ MAX_MSG_ABSOLUTE)
+    (hb : ∀ e ∈ p.names, e.2 < p.data.size) :
+    (b = false → p'.data = p.data ∧ p'.names = p.names) ∧
+    (b = true → ∃ (bs : BList) (new : Names),
+        p'.data = p.data ++ bs.toArray ∧ p'.names = new ++ p.names ∧ p'.finished = p.finished ∧
+        (∀ e ∈ new, p.data.size ≤ e.2 ∧ e.2 < p.data.size + bs.length) ∧
+        ∀ D : Data, D.size = p.data.size → NamesOK D p.names →
+          NamesOK (D ++ bs.toArray) p'.names ∧
+          ∀ x : Data, Ref.readRecord (D ++ bs.toArray ++ x) D.size = some (expRec r now, D.size + bs.length)) := by
+  obtain ⟨w1, w2, w3, w4, w5⟩ := hw
+  have hrl := rdNameLen_le _ _ w5
+  simp only [MAX_MSG_ABSOLUTE] at hs
+  simp only [OutPacket.writeRecord] at h
+  split at h
+  · simp at h
+  · simp at h
+  · rename_i p1 h1
+    obtain ⟨nb, new1, a1, a2, a3, a4, a5, a6, a7⟩ := writeName_spec p p1 r.name h1 (by omega)
+    split at h
+    · simp at h
+    · simp at h
+    · rename_i ttl ht
+      have httl : ttl = ttlOf r now := by
+        unfold ttlOf at *
+        split at ht
+        · rename_i h0; simp only [Res.ok.injEq] at ht; simp [h0, ht]
+        · rename_i h0
+          simp only [remainingTtl] at ht
+          split at ht
+          · simp at ht
+          · simp only [Res.ok.injEq] at ht
+            simp only [h0, if_false] at w4 ⊢
+            rw [← ht, Nat.mod_eq_of_lt w4]
+      split at h
+      · simp at h
+      · simp at h
+      · rename_i p7 h7
+        have hs1 : p1.data.size = p.data.size + nb.length := by rw [a1]; simp
+        obtain ⟨rd, new2, c1, c2, c3, c4, c5⟩ := writeRecordBody_spec p1 p7 r ttl h7 (by omega)
+        have hs7 : p7.data.size = p.data.size + nb.length + 10 + rd.length := by
+          rw [c1, a1]; simp; omega
+        split at h
+        · -- roll-back
+          rename_i hbig
+          simp only [Res.ok.injEq, Prod.mk.injEq] at h
+          obtain ⟨rfl, rfl⟩ := h
+          refine ⟨fun _ => ⟨?_, ?_⟩, fun hc => by simp at hc⟩
+          · rw [rollback_data, c1, a1, Array.append_assoc, extract_append_left]
+          · rw [rollback_names, c3, a3]
+            simp only [List.filter_append]
+            have f1 : new2.filter (fun e => decide (e.2 < p.data.size)) = [] := by
+              apply List.filter_eq_nil_iff.mpr
+              intro e he; have := c4 e he; simp; omega
+            have f2 : new1.filter (fun e => decide (e.2 < p.data.size)) = [] := by
+              apply List.filter_eq_nil_iff.mpr
+              intro e he; have := a6 e he; simp; omega
+            have f3 : p.names.filter (fun e => decide (e.2 < p.data.size)) = p.names := by
+              apply List.filter_eq_self.mpr
+              intro e he; simpa using hb e he
+            rw [f1, f2, f3]; simp
+        · -- the record fits
+          rename_i hfit
+          simp only [Res.ok.injEq, Prod.mk.injEq] at h
+          obtain ⟨rfl, rfl⟩ := h
+          refine ⟨fun hc => by simp at hc, fun _ => ?_⟩
+          simp only [MAX_MSG_ABSOLUTE] at hfit
+          have hrd : rd.length % 65536 = rd.length := Nat.mod_eq_of_lt (by omega)
+          rw [hrd] at c1 c5
+          refine ⟨nb ++ (fixed10 r.ty (clsBits r) ttl rd.length ++ rd), new2 ++ new1, ?_, ?_, ?_, ?_, ?_⟩
+          · rw [c1, a1]; apply Array.toList_inj.mp; simp
+          · rw [c3, a3]; simp
+          · rw [c2, a2]
+          · intro e he
+            simp only [List.mem_append] at he
+            rcases he with he | he
+            · have := c4 e he; simp; omega
+            · have := a6 e he; simp; omega
+          · intro D hD hN
+            obtain ⟨b1, b2⟩ := a7 D hD hN
+            have hD1 : (D ++ nb.toArray).size = p1.data.size := by rw [hs1]; simp; omega
+            obtain ⟨d1, d2⟩ := c5 _ hD1 b1
+            have e0 : D ++ (nb ++ (fixed10 r.ty (clsBits r) ttl rd.length ++ rd)).toArray =
+                D ++ nb.toArray ++ (fixed10 r.ty (clsBits r) ttl rd.length ++ rd).toArray := by
+              apply Array.toList_inj.mp; simp
+            refine ⟨by rw [e0]; exact d1, ?_⟩
+            intro x
+            have rn := b2 w1 ((fixed10 r.ty (clsBits r) ttl rd.length ++ rd).toArray ++ x)
+            rw [← Array.append_assoc, ← e0] at rn
+            have rr := d2 w5 x
+            rw [← e0] at rr
+            have so : (D ++ nb.toArray).size = D.size + nb.length := by simp
+            rw [so] at rr
+            -- the ten fixed bytes
+            have hF : (D ++ (nb ++ (fixed10 r.ty (clsBits r) ttl rd.length ++ rd)).toArray ++ x).toList =
+                (D.toList ++ nb) ++ (be16 r.ty ++ (be16 (clsBits r) ++ (be32 ttl ++ (be16 rd.length ++ (rd ++ x.toList))))) := by
+              simp [fixed10]
+            have u1 := u16_of_toList _ (D.toList ++ nb) _ r.ty hF
+            have u2 := u16_of_toList _ (D.toList ++ nb ++ be16 r.ty) (be32 ttl ++ (be16 rd.length ++ (rd ++ x.toList))) (clsBits r) (by rw [hF]; simp)
+            have u3 := u32_of_toList _ (D.toList ++ nb ++ be16 r.ty ++ be16 (clsBits r)) (be16 rd.length ++ (rd ++ x.toList)) ttl (by rw [hF]; simp)
+            have u4 := u16_of_toList _ (D.toList ++ nb ++ be16 r.ty ++ be16 (clsBits r) ++ be32 ttl) (rd ++ x.toList) rd.length
+              (by rw [hF]; simp)
+            simp only [List.length_append, Array.length_toList, be16_length, be32_length] at u1 u2 u3 u4
+            have hcls : clsBits r < 65536 := by unfold clsBits; split <;> omega
+            rw [Nat.mod_eq_of_lt w2] at u1
+            rw [Nat.mod_eq_of_lt hcls] at u2
+            rw [Nat.mod_eq_of_lt (by rw [httl]; exact w4)] at u3
+            rw [Nat.mod_eq_of_lt (by omega)] at u4
+            unfold Ref.readRecord
+            rw [rn]
+            simp only []
+            rw [u1, show D.size + nb.length + 2 + 2 = D.size + nb.length + 4 by omega] at *
+            rw [show D.size + nb.length + 4 + 4 = D.size + nb.length + 8 by omega] at u4
+            rw [u2, u3, u4]
+            simp only []
+            have hle : D.size + nb.length + 10 + rd.length ≤
+                (D ++ (nb ++ (fixed10 r.ty (clsBits r) ttl rd.length ++ rd)).toArray ++ x).size := by
+              simp; omega
+            simp only [hle, if_true, rr]
+            simp only [expRec, Option.some.injEq, Prod.mk.injEq]
+            refine ⟨?_, by simp; omega⟩
+            have k1 : clsBits r % 32768 = r.cls := by unfold clsBits; split <;> omega
+            have k2 : decide (clsBits r ≥ 32768) = r.flush := by
+              unfold clsBits; cases hf : r.flush <;> simp <;> omega
+            rw [k1, k2, httl]
+            rfl
+
+theorem insertShortData_prefix (H B d' : Data) (i v : Nat) (hi : i + 2 ≤ H.size)
+    (h : insertShortData (H ++ B) i v = .ok d') : ∃ H' : Data, H'.size = H.size ∧ d' = H' ++ B := by
+  unfold insertShortData at h
+  split at h
+  · simp only [Res.ok.injEq] at h
+    refine ⟨(H.setIfInBounds i (UInt8.ofNat (v / 256))).setIfInBounds (i + 1) (UInt8.ofNat v), by simp, ?_⟩
+    rw [← h]
+    apply Array.toList_inj.mp
+    have h1 : i < H.toList.length := by simp; omega
+    have h2 : i + 1 < (H.toList.set i (UInt8.ofNat (v / 256))).length := by simp; omega
+    simp only [Array.toList_setIfInBounds, Array.toList_append]
+    rw [List.set_append_left _ _ h1, List.set_append_left _ _ h2]
+  · simp at h
+
+theorem insertShort_prefix (p p' : OutPacket) (H B : Data) (i v : Nat) (hp : p.data = H ++ B)
+    (hi : i + 2 ≤ H.size) (h : p.insertShort i v = .ok p') :
+    ∃ H' : Data, H'.size = H.size ∧ p'.data = H' ++ B := by
+  have := insertShort_data _ _ _ _ h
+  rw [hp] at this
+  exact insertShortData_prefix H B _ i v hi this
+
+theorem writeHeader_prefix (p p' : OutPacket) (H B : Data) (id flags qc anc auc adc : Nat)
+    (hp : p.data = H ++ B) (hH : H.size = 12) (h : p.writeHeader id flags qc anc auc adc = .ok p') :
+    ∃ H' : Data, H'.size = 12 ∧ p'.data = H' ++ B := by
+  simp only [OutPacket.writeHeader] at h
+  cases h0 : p.insertShort 0 id with
+  | err => simp [h0] at h
+  | panic => simp [h0] at h
+  | ok p0 =>
+  simp only [h0] at h
+  obtain ⟨H0, s0, d0⟩ := insertShort_prefix _ _ H B _ _ hp (by omega) h0
+  cases h1 : p0.insertShort 2 flags with
+  | err => simp [h1] at h
+  | panic => simp [h1] at h
+  | ok p1 =>
+  simp only [h1] at h
+  obtain ⟨H1, s1, d1⟩ := insertShort_prefix _ _ H0 B _ _ d0 (by omega) h1
+  cases h2 : p1.insertShort 4 qc with
+  | err => simp [h2] at h
+  | panic => simp [h2] at h
+  | ok p2 =>
+  simp only [h2] at h
+  obtain ⟨H2, s2, d2⟩ := insertShort_prefix _ _ H1 B _ _ d1 (by omega) h2
+  cases h3 : p2.insertShort 6 anc with
+  | err => simp [h3] at h
+  | panic => simp [h3] at h
+  | ok p3 =>
+  simp only [h3] at h
+  obtain ⟨H3, s3, d3⟩ := insertShort_prefix _ _ H2 B _ _ d2 (by omega) h3
+  cases h4 : p3.insertShort 8 auc with
+  | err => simp [h4] at h
+  | panic => simp [h4] at h
+  | ok p4 =>
+  simp only [h4] at h
+  obtain ⟨H4, s4, d4⟩ := insertShort_prefix _ _ H3 B _ _ d3 (by omega) h4
+  cases h5 : p4.insertShort 10 adc with
+  | err => simp [h5] at h
+  | panic => simp [h5] at h
+  | ok p5 =>
+  simp only [h5, Res.ok.injEq] at h
+  obtain ⟨H5, s5, d5⟩ := insertShort_prefix _ _ H4 B _ _ d4 (by omega) h5
+  subst h
+  exact ⟨H5, by omega, d5⟩
+
+/-- the empty header of a packet under construction -/
+def hdr0 : Data := Array.replicate 12 0
+
+@[simp] theorem hdr0_size : hdr0.size = 12 := by simp [hdr0]
+
+/-- Invariant of a packet under construction, for ANY content `H` of the twelve header
+    bytes (the header is patched at the very end): the compression table is sound, and an
+    RFC 1035 reader finds, after the header, exactly `nq` questions `qexp` followed by the
+    records `rexp`, ending where the packet ends - also when more bytes `x` follow. -/
+def Inv (p : OutPacket) (nq : Nat) (qexp : List Ref.Question) (rexp : List Ref.Record) : Prop :=
+  ∃ (body : BList) (o1 : Nat),
+    p.data = hdr0 ++ body.toArray ∧ 12 + 5 * nq + 11 * rexp.length ≤ p.data.size ∧
+    ∀ H : Data, H.size = 12 →
+      NamesOK (H ++ body.toArray) p.names ∧
+      ∀ x : Data,
+        Ref.readMany (Ref.readQuestion (H ++ body.toArray ++ x)) nq 12 = some (qexp, o1) ∧
+        Ref.readMany (Ref.readRecord (H ++ body.toArray ++ x)) rexp.length o1 = some (rexp, 12 + body.length)
+
+theorem Inv_new : Inv OutPacket.new 0 [] [] := by
+  refine ⟨[], 12, by simp [OutPacket.new, hdr0], by simp, ?_⟩
+  intro H hH
+  refine ⟨by intro e he; simp [OutPacket.new] at he, ?_⟩
+  intro x
+  simp [Ref.readMany]
+
+theorem Inv_names_lt (p : OutPacket) (nq : Nat) (qexp : List Ref.Question) (rexp : List Ref.Record)
+    (h : Inv p nq qexp rexp) : ∀ e ∈ p.names, e.2 < p.data.size := by
+  obtain ⟨body, o1, h1, _, h3⟩ := h
+  intro e he
+  have := ((h3 hdr0 hdr0_size).1 e he).1
+  rw [h1]; exact this
+
+theorem Inv_question (p p' : OutPacket) (nq : Nat) (qexp : List Ref.Question) (q : QIn)
+    (hi : Inv p nq qexp []) (h : p.writeQuestion q = .ok p') (hw : QWF q)
+    (hs : p.data.size ≤ MAX_MSG_ABSOLUTE) : Inv p' (nq + 1) (qexp ++ [expQ q]) [] := by
+  obtain ⟨body, o1, h1, h2, h3⟩ := hi
+  simp only [MAX_MSG_ABSOLUTE] at hs
+  obtain ⟨bs, new, a1, a2, a3, a4, a5⟩ := writeQuestion_spec p p' q h (by have := hw.1; omega)
+  have hsz : p.data.size = 12 + body.length := by rw [h1]; simp
+  have hgrow := writeQuestion_ok _ _ _ h
+  refine ⟨body ++ bs, 12 + (body ++ bs).length, ?_, by simp at h2 ⊢; omega, ?_⟩
+  · rw [a1, h1]; apply Array.toList_inj.mp; simp
+  · intro H hH
+    obtain ⟨n1, n2⟩ := h3 H hH
+    have hD : (H ++ body.toArray).size = p.data.size := by rw [hsz]; simp; omega
+    obtain ⟨b1, b2⟩ := a5 _ hD n1
+    have e0 : H ++ (body ++ bs).toArray = H ++ body.toArray ++ bs.toArray := by
+      apply Array.toList_inj.mp; simp
+    refine ⟨by rw [e0]; exact b1, ?_⟩
+    intro x
+    have e1 : H ++ (body ++ bs).toArray ++ x = H ++ body.toArray ++ (bs.toArray ++ x) := by
+      apply Array.toList_inj.mp; simp
+    obtain ⟨m1, m2⟩ := n2 (bs.toArray ++ x)
+    simp only [List.length_nil, Ref.readMany, Option.some.injEq, Prod.mk.injEq, true_and] at m2
+    have rq := b2 hw x
+    rw [← e0] at rq
+    have sD : (H ++ body.toArray).size = 12 + body.length := by simp; omega
+    rw [sD] at rq
+    refine ⟨?_, by simp [Ref.readMany]⟩
+    rw [← e1] at m1
+    apply Ref.readMany_snoc _ _ _ _ _ _ _ m1
+    rw [m2, rq]
+    simp; omega
+
+theorem Inv_record (p p' : OutPacket) (nq : Nat) (qexp : List Ref.Question) (rexp : List Ref.Record)
+    (r : RecIn) (now : Nat) (b : Bool)
+    (hi : Inv p nq qexp rexp) (h : p.writeRecord r now = .ok (p', b)) (hw : RecWF r now)
+    (hs : p.data.size ≤ MAX_MSG_ABSOLUTE) :
+    Inv p' nq qexp (if b then rexp ++ [expRec r now] else rexp) := by
+  have hb := Inv_names_lt _ _ _ _ hi
+  obtain ⟨body, o1, h1, h2, h3⟩ := hi
+  obtain ⟨s1, s2⟩ := writeRecord_spec p p' r now b h hw hs hb
+  have hsz : p.data.size = 12 + body.length := by rw [h1]; simp
+  cases b with
+  | false =>
+    obtain ⟨d1, d2⟩ := s1 rfl
+    simp only [Bool.false_eq_true, if_false]
+    exact ⟨body, o1, by rw [d1, h1], by rw [d1]; exact h2, by rw [d2]; exact h3⟩
+  | true =>
+    obtain ⟨bs, new, a1, a2, a3, a4, a5⟩ := s2 rfl
+    have hgrow := (writeRecord_ok _ _ _ _ _ h).1 rfl
+    simp only [if_true]
+    refine ⟨body ++ bs, o1, ?_, by simp at h2 ⊢; omega, ?_⟩
+    · rw [a1, h1]; apply Array.toList_inj.mp; simp
+    · intro H hH
+      obtain ⟨n1, n2⟩ := h3 H hH
+      have hD : (H ++ body.toArray).size = p.data.size := by rw [hsz]; simp; omega
+      obtain ⟨b1, b2⟩ := a5 _ hD n1
+      have e0 : H ++ (body ++ bs).toArray = H ++ body.toArray ++ bs.toArray := by
+        apply Array.toList_inj.mp; simp
+      refine ⟨by rw [e0]; exact b1, ?_⟩
+      intro x
+      have e1 : H ++ (body ++ bs).toArray ++ x = H ++ body.toArray ++ (bs.toArray ++ x) := by
+        apply Array.toList_inj.mp; simp
+      obtain ⟨m1, m2⟩ := n2 (bs.toArray ++ x)
+      rw [← e1] at m1 m2
+      have rr := b2 x
+      rw [← e0] at rr
+      have sD : (H ++ body.toArray).size = 12 + body.length := by simp; omega
+      rw [sD] at rr
+      refine ⟨m1, ?_⟩
+      have := Ref.readMany_snoc _ _ _ _ _ _ _ m2 rr
+      simpa [Nat.add_assoc] using this
+
+theorem Inv_questions (qs : List QIn) : ∀ (p p' : OutPacket) (nq : Nat) (qexp : List Ref.Question),
+    Inv p nq qexp [] → writeQuestions p qs = .ok p' → (∀ q ∈ qs, QWF q) →
+    p'.data.size ≤ MAX_MSG_ABSOLUTE → Inv p' (nq + qs.length) (qexp ++ qs.map expQ) [] := by
+  induction qs with
+  | nil =>
+    intro p p' nq qexp hi h _ _
+    simp only [writeQuestions, Res.ok.injEq] at h; subst h
+    simpa using hi
+  | cons q qs ih =>
+    intro p p' nq qexp hi h hw hs
+    simp only [writeQuestions] at h
+    split at h
+    · rename_i p1 h1
+      have g1 := writeQuestion_ok _ _ _ h1
+      have g2 := writeQuestions_ok _ _ _ h
+      have i1 := Inv_question p p1 nq qexp q hi h1 (hw q List.mem_cons_self) (by omega)
+      have := ih p1 p' (nq + 1) (qexp ++ [expQ q]) i1 h (fun x hx => hw x (List.mem_cons_of_mem _ hx)) hs
+      simpa [Nat.add_assoc, Nat.add_comm 1] using this
+    · simp at h
+    · simp at h
+
+theorem Inv_answers (as : List (RecIn × Nat)) : ∀ (p p' : OutPacket) (c c' : Nat) (w w' : List (RecIn × Nat))
+    (nq : Nat) (qexp : List Ref.Question) (rexp : List Ref.Record),
+    Inv p nq qexp rexp → writeAnswers p c w as = .ok (p', c', w') → (∀ a ∈ as, RecWF a.1 a.2) →
+    p.data.size ≤ MAX_MSG_ABSOLUTE →
+    ∃ s, w' = w ++ s ∧ Inv p' nq qexp (rexp ++ s.map (fun a => expRec a.1 a.2)) ∧
+      p'.data.size ≤ MAX_MSG_ABSOLUTE := by
+  induction as with
+  | nil =>
+    intro p p' c c' w w' nq qexp rexp hi h _ hs
+    simp only [writeAnswers, Res.ok.injEq, Prod.mk.injEq] at h
+    obtain ⟨rfl, rfl, rfl⟩ := h
+    exact ⟨[], by simp, by simpa using hi, hs⟩
+  | cons a as ih =>
+    intro p p' c c' w w' nq qexp rexp hi h hw hs
+    obtain ⟨r, now⟩ := a
+    have hr := hw (r, now) List.mem_cons_self
+    have ht := fun x hx => hw x (List.mem_cons_of_mem _ hx)
+    simp only [writeAnswers] at h
+    split at h
+    · rename_i p1 h1
+      have i1 := Inv_record p p1 nq qexp rexp r now true hi h1 hr hs
+      have g1 := ((writeRecord_ok _ _ _ _ _ h1).1 rfl).2
+      obtain ⟨s, e1, e2, e3⟩ := ih p1 p' _ c' _ w' nq qexp _ i1 h ht g1
+      refine ⟨(r, now) :: s, by simp [e1], ?_, e3⟩
+      simpa using e2
+    · rename_i p1 h1
+      have i1 := Inv_record p p1 nq qexp rexp r now false hi h1 hr hs
+      have g1 := (writeRecord_ok _ _ _ _ _ h1).2 rfl
+      obtain ⟨s, e1, e2, e3⟩ := ih p1 p' _ c' _ w' nq qexp _ i1 h ht (by omega)
+      exact ⟨s, e1, e2, e3⟩
+    · simp at h
+    · simp at h
+
+theorem Inv_authorities (as : List RecIn) : ∀ (p p' : OutPacket) (c c' : Nat) (w w' : List RecIn)
+    (nq : Nat) (qexp : List Ref.Question) (rexp : List Ref.Record),
+    Inv p nq qexp rexp → writeAuthorities p c w as = .ok (p', c', w') → (∀ r ∈ as, RecWF r 0) →
+    p.data.size ≤ MAX_MSG_ABSOLUTE →
+    ∃ s, w' = w ++ s ∧ Inv p' nq qexp (rexp ++ s.map (expRec · 0)) ∧ p'.data.size ≤ MAX_MSG_ABSOLUTE := by
+  induction as with
+  | nil =>
+    intro p p' c c' w w' nq qexp rexp hi h _ hs
+    simp only [writeAuthorities, Res.ok.injEq, Prod.mk.injEq] at h
+    obtain ⟨rfl, rfl, rfl⟩ := h
+    exact ⟨[], by simp, by simpa using hi, hs⟩
+  | cons r as ih =>
+    intro p p' c c' w w' nq qexp rexp hi h hw hs
+    have hr := hw r List.mem_cons_self
+    have ht := fun x hx => hw x (List.mem_cons_of_mem _ hx)
+    simp only [writeAuthorities] at h
+    split at h
+    · rename_i p1 h1
+      have i1 := Inv_record p p1 nq qexp rexp r 0 true hi h1 hr hs
+      have g1 := ((writeRecord_ok _ _ _ _ _ h1).1 rfl).2
+      obtain ⟨s, e1, e2, e3⟩ := ih p1 p' _ c' _ w' nq qexp _ i1 h ht g1
+      refine ⟨r :: s, by simp [e1], ?_, e3⟩
+      simpa using e2
+    · rename_i p1 h1
+      have i1 := Inv_record p p1 nq qexp rexp r 0 false hi h1 hr hs
+      have g1 := (writeRecord_ok _ _ _ _ _ h1).2 rfl
+      obtain ⟨s, e1, e2, e3⟩ := ih p1 p' _ c' _ w' nq qexp _ i1 h ht (by omega)
+      exact ⟨s, e1, e2, e3⟩
+    · simp at h
+    · simp at h
 
 end Mdns.Enc
